@@ -1,12 +1,20 @@
 pub mod ev;
+pub mod hist;
 pub mod world;
 
 pub use ev::{Reporter, Tier};
 
 /// Run `f` under catch_unwind with the default panic hook silenced for the calling thread's
 /// duration; returns Err(panic message) on panic.
+thread_local! {
+  static QUIET: std::cell::Cell<u32> = const { std::cell::Cell::new(0) };
+}
+
 pub fn catch<T>(f: impl FnOnce() -> T) -> Result<T, String> {
-  match std::panic::catch_unwind(std::panic::AssertUnwindSafe(f)) {
+  QUIET.with(|q| q.set(q.get() + 1));
+  let r = std::panic::catch_unwind(std::panic::AssertUnwindSafe(f));
+  QUIET.with(|q| q.set(q.get() - 1));
+  match r {
     Ok(v) => Ok(v),
     Err(e) => {
       let msg = if let Some(s) = e.downcast_ref::<&str>() {
@@ -21,9 +29,15 @@ pub fn catch<T>(f: impl FnOnce() -> T) -> Result<T, String> {
   }
 }
 
-/// Silence panic messages (they are caught and reported as data).
+/// Silence panic messages raised inside `catch` (they are caught and reported as data); panics of
+/// the harness itself are still printed.
 pub fn quiet_panics() {
-  std::panic::set_hook(Box::new(|_| {}));
+  let default = std::panic::take_hook();
+  std::panic::set_hook(Box::new(move |info| {
+    if QUIET.with(|q| q.get()) == 0 {
+      default(info);
+    }
+  }));
 }
 
 pub fn threads() -> usize {
